@@ -11,12 +11,17 @@
                         | {"o":"none-text","what"} | {"o":"load-error","class"} | {"o":"loaded","report":R'}]}   (`Store.run`)
     {"op":"escape","s":[code points]} → {"out":[code points of `jsonEscape s`], "ascii":bool, "utf8":bool, "latin1":bool
                                           (can the RAW string be written with that encoding)}
+    {"op":"dir","target":name,"tmp":"beside"|{"system":dev},"dirs":[{"name","dev","entries":[{"name","kind":"subdir"|"other"|"json"|"xml",
+             ("report","g","jc","pretty" for the two last)}]}],"save":{"file":name,"fmt":"json"|"xml","jc","pretty","g","report":R},"order":[names in os.listdir order]}   (kind "hostile": a file a backend crashes on)
+        → {"save":"saved"|"cross-device"|"save-error", "names":[entries of the target directory afterwards],
+           "load":{"o":"no-dir"|"no-report"|"loaded","report"}, "count": number of reports the directory lists}   (`DirStore.saveInto`, `loadDir`)
   Run: `lake env lean --run drivers/C09.lean`
 -/
 import LccModel.Proto
 import LccModel.ProtoReport
 import LccModel.Model.Serial
 import LccModel.Model.Store
+import LccModel.Model.DirStore
 open Lean LccModel LccModel.Proto LccModel.ProtoReport LccModel.Report LccModel.Serial LccModel.JsonFile LccModel.Store
 
 partial def decElem (j : Json) : Except String XElem := do
@@ -65,7 +70,7 @@ def decOp (j : Json) : Except String Op := do
       | "json" => do pure (Fmt.json (← decOpts j))
       | "xml" => pure Fmt.xml
       | f => throw s!"unknown format {f}"
-    pure (.save p fmt g)
+    pure (Op.save p fmt g)
   | "load" => pure (.load (← getNat j "path"))
   | k => throw s!"unknown op kind {k}"
 
@@ -78,6 +83,29 @@ def encOutcome : Outcome → Json
   | .loadFailed (.noneText w) => Json.mkObj [("o", "none-text"), ("what", Json.str w)]
   | .loadFailed e => Json.mkObj [("o", "load-error"), ("class", Json.str (loadErrClass e))]
   | .loaded r => Json.mkObj [("o", "loaded"), ("report", encReport r)]
+
+def decFmt (j : Json) : Except String Fmt := do
+  match (← getStr j "fmt") with
+  | "json" => do pure (Fmt.json (← decOpts j))
+  | "xml" => pure Fmt.xml
+  | f => throw s!"unknown format {f}"
+
+def decDirEntry (j : Json) : Except String (DirStore.Name × DirStore.Entry) := do
+  let n := (← getStr j "name").toList
+  match (← getStr j "kind") with
+  | "subdir" => pure (n, .subdir)
+  | "other" => pure (n, .other)
+  | "hostile" => pure (n, .hostile)
+  | k =>
+    let r ← decReport (← field j "report")
+    let g ← getNat j "g"
+    let fmt ← if k == "json" then do pure (Fmt.json (← decOpts j)) else pure Fmt.xml
+    match DirStore.contentOf fmt g r with
+    | .ok c => pure (n, .file c)
+    | .error _ => pure (n, .other)
+
+def decDir (j : Json) : Except String DirStore.Dir := do
+  pure { name := (← getStr j "name").toList, dev := (← getNat j "dev"), entries := (← decList decDirEntry (← field j "entries")) }
 
 def handle (j : Json) : Except String Json := do
   let op ← getStr j "op"
@@ -118,6 +146,38 @@ def handle (j : Json) : Except String Json := do
     let r0 ← decReport (← field j "report")
     let ops ← decList decOp (← field j "ops")
     pure (Json.mkObj [("outcomes", Json.arr ((Store.run (St.init r0) ops).map encOutcome).toArray)])
+  | "dir" =>
+    let fs ← decList decDir (← field j "dirs")
+    let target := (← getStr j "target").toList
+    let pl : DirStore.TmpPlace ← match fieldOpt j "tmp" with
+      | .str _ => pure DirStore.TmpPlace.beside
+      | t => do pure (DirStore.TmpPlace.system (← getNat t "system"))
+    let sv ← field j "save"
+    let r ← decReport (← field sv "report")
+    let (fs', out) := DirStore.saveInto pl fs target (← getStr sv "file").toList (← decFmt sv) (← getNat sv "g") r
+    -- the entries of the target directory in the order `os.listdir` really gave them ("order"; unlisted ones last)
+    let order : List DirStore.Name ← match fieldOpt j "order" with
+      | .null => pure []
+      | oj => do pure ((← decList (fun x => x.getStr?) oj).map String.toList)
+    let ents : List (DirStore.Name × DirStore.Entry) := match DirStore.findDir target fs' with
+      | some d => order.filterMap (fun n => d.entries.find? (fun e => e.1 == n)) ++ d.entries.filter (fun e => !order.contains e.1)
+      | none => []
+    let names := ents.map (fun (e : DirStore.Name × DirStore.Entry) => Json.str (String.ofList e.1))
+    let count : Json := match DirStore.loadAll ents with
+      | some l => Json.num l.length
+      | none => Json.str "crashed"
+    let ld := match DirStore.findDir target fs' with
+      | none => Json.mkObj [("o", "no-dir")]
+      | some _ => match DirStore.firstLoad ents with
+        | .noDir => Json.mkObj [("o", "no-dir")]
+        | .noReport => Json.mkObj [("o", "no-report")]
+        | .crashed => Json.mkObj [("o", "crashed")]
+        | .loaded r' => Json.mkObj [("o", "loaded"), ("report", encReport r')]
+    let so := match out with
+      | .saved => "saved"
+      | .crossDevice => "cross-device"
+      | .serialiseFailed _ => "save-error"
+    pure (Json.mkObj [("save", Json.str so), ("names", Json.arr names.toArray), ("count", count), ("load", ld)])
   | "escape" =>
     let s ← decNats (← field j "s")
     pure (Json.mkObj [("out", Json.arr ((jsonEscape s).map (fun (n : Nat) => Json.num n)).toArray),
